@@ -252,7 +252,7 @@ OUT = ('programs outside the families; pickle protocol / interpreter version cha
 
 def jobs(tier):
     out = []
-    langs = ['java', 'kotlin'] if tier == 'quick' else F.LANGS
+    langs = ['kotlin'] if tier == 'quick' else F.LANGS       # the language only parameterises how the mutations run
     nseeds = 2 if tier == 'quick' else 5
     for lang in langs:
         out.append(Job('roundtrip-%s' % lang, h_roundtrip, dict(tier=tier, lang=lang, sym_draws=0, part='roundtrip'),
